@@ -124,13 +124,20 @@ def gen_plan(seed: int, cls: str) -> dict:
                              ['list', ['s', 'any']], ['dict', ['s', 'str'], ['list', ['s', 'str']]], ['opt', ['s', 'str']]])
         else:
             ast = tg.gen_type(ro, world, kinds, C19_SCALARS, max_depth=3)
+        force_none = False
+        if ro.random() < 0.15:
+            # a top-level None of an optional type: 'null' documents and empty documents look alike to a reader
+            ast = tg.normalise_unions(['opt', ast])
+            force_none = True
         custom = ro.choice(custom_specs)
         needs_opaque = tg.contains(ast, lambda a: a[0] == 's' and a[1] == 'Opaque') or _cls_uses_opaque(ast, world)
         if needs_opaque and not tg.handlers_cover_opaque(custom):
             custom = ro.choice([['one', 'opaque'], ['seq', 'defer_ni', 'opaque'], ['map', 'Opaque']])
-        for _ in range(ro.choice([1, 2, 3])):
+        for j in range(ro.choice([1, 2, 3])):
             try:
                 data = tg.sample_value(ast, world, ro, valid_p=1.0, alphabet=knobs['alphabet'])
+                if force_none and j == 0:
+                    data = None
                 values.append({'t': ast, 'data': tg.enc(data), 'custom': custom})
             except HarnessError:
                 pass
@@ -411,10 +418,12 @@ class Exec:
         return text.replace(self.tmpdir, '<scratch>') if self.tmpdir else text
 
     # -- representability precondition (decided with json/yaml directly, never with pane.io)
-    def representable(self, ent, fmt, opts, passty, prior_texts):
+    def representable(self, ent, fmt, opts, ser_ty, prior_texts):
+        """`ser_ty` is the type the chosen route serialises with: the declared type (module function with ty=),
+        None (module function, type inferred from the value) or the value's class (dataclass methods)."""
         pane = self.pane
         try:
-            data = pane.into_data(ent['x'], ent['T'] if passty else None, custom=ent['H'])
+            data = pane.into_data(ent['x'], ser_ty, custom=ent['H'])
             text = _direct_dump(data, fmt, opts)
             docs = _direct_load_all(''.join(prior_texts) + text, fmt)
             if len(docs) != len(prior_texts) + 1:
@@ -517,7 +526,8 @@ class Exec:
         prior = [d[2] for d in sink.docs] if append else []
         if append and not sink.docs[-1][3].get('explicit_end', False):
             opts['explicit_start'] = True
-        text = self.representable(ent, fmt, opts, passty, prior)
+        ser_ty = (ent['T'] if passty else None) if via == 'func' else type(ent['x'])
+        text = self.representable(ent, fmt, opts, ser_ty, prior)
         if text is None:
             self.count('skipped_not_representable')
             self.trace.add('skip', i, 'not-representable')
